@@ -10,6 +10,7 @@ import (
 	"encoding/json"
 	"fmt"
 	"io"
+	"strings"
 	"time"
 
 	"verif/engine"
@@ -248,6 +249,67 @@ func build(s Spec) *engine.Scenario {
 	return sc
 }
 
+// pairScenario: two unauthenticated connections arriving back to back (both are in the accept
+// backlog before the server runs): each one must be read and closed at its own deadline.
+func pairScenario(n1, n2 int) *engine.Scenario {
+	type res struct {
+		closedAt time.Duration
+		read     int64
+		got      int
+		rst      bool
+	}
+	var r [2]res
+	var handled int
+	sc := &engine.Scenario{Name: fmt.Sprintf("probe-pair[%d,%d]", n1, n2), Opt: vrt.Options{Horizon: 10 * time.Minute}}
+	sc.Body = func() {
+		r = [2]res{}
+		vnet.Reset()
+		hk.ResetLogs()
+		w := world.NewTCP(world.MixedKeys(3), 0, T)
+		w.Start()
+		var cls [2]*world.Client
+		var rds []*vrt.Thread
+		for i, n := range []int{n1, n2} {
+			cls[i] = world.Dial(fmt.Sprintf("203.0.113.%d:0", 20+i))
+			probe := make([]byte, n)
+			io.ReadFull(vrt.DetRand(uint64(900+i)), probe)
+			cls[i].Send(probe, 0)
+		}
+		for i := range cls {
+			cl := cls[i]
+			rds = append(rds, vrt.Spawn("reader", func() { cl.ReadAll() }))
+		}
+		vrt.Sleep(T + 30*time.Second)
+		handled = len(w.Conns)
+		for i, cl := range cls {
+			srv := cl.C.Peer()
+			r[i] = res{closedAt: srv.ClosedAt, read: srv.BytesRead, got: len(cl.Got), rst: srv.SentRST || cl.C.GotRST()}
+		}
+		for _, cl := range cls {
+			cl.Close()
+		}
+		vrt.Join(rds...)
+		vrt.WaitIdle()
+		w.Stop()
+	}
+	sc.Check = func(x *vrt.Exec) (string, bool, []*engine.Finding) {
+		fs := hk.Generic(x, hk.Opts{})
+		if len(fs) == 0 {
+			for i, n := range []int{n1, n2} {
+				if r[i].closedAt != T || r[i].got != 0 || r[i].rst || r[i].read != int64(n) {
+					fs = append(fs, &engine.Finding{Sig: "probe-pair-not-absorbed", Msg: fmt.Sprintf("probe %d of two arriving back to back (%d bytes): read %d bytes, wrote %d, closed at %v (want %v), reset=%v; %d connections were handled", i, n, r[i].read, r[i].got, r[i].closedAt, T, r[i].rst, handled)})
+				}
+			}
+		}
+		return fmt.Sprint(r), true, fs
+	}
+	return sc
+}
+
+func pairScenarios() []*engine.Scenario {
+	return []*engine.Scenario{pairScenario(60, 80), pairScenario(10, 200), pairScenario(0, 51)}
+}
+
 func x() *vrt.Exec { return vrt.Cur() }
 
 func grid(tier string) []Spec {
@@ -313,8 +375,14 @@ func init() {
 			}
 			ctx.RunCase("probes", "E", build(s), s, nil)
 		}
+		for _, sc := range pairScenarios() {
+			engine.ExploreS(ctx, sc, engine.SConfig{Bound: 1, Shard: ctx.Shard, NShards: ctx.NShards, Deadline: ctx.Deadline})
+		}
 	})
 	hk.Replayers["C06"] = func(ctx *engine.Ctx, rp engine.Replay) []*engine.Finding {
+		if strings.HasPrefix(rp.Unit, "probe-pair") {
+			return engine.ReplayScenario(pairScenarios(), rp)
+		}
 		var s Spec
 		if err := json.Unmarshal(rp.Input, &s); err != nil {
 			return []*engine.Finding{{Sig: "BROKEN:bad-input", Msg: err.Error()}}
